@@ -38,8 +38,9 @@ pub fn c02_after(vt: &Vt, requested: (usize, usize), out: &Outcome) -> Option<St
         return Some(format!("lines() has {} lines < rows = {}", lines.len(), rows));
     }
     let tail = &lines[lines.len() - rows..];
-    if tail.as_ptr() != view.as_ptr() {
-        return Some("view() is not the tail of lines()".into());
+    // (by content: the same cells and soft-wrap marks, wherever they are stored)
+    if let Some(i) = (0..rows).find(|i| tail[*i].cells() != view[*i].cells() || TextUnwrapper::new().push(&tail[*i]).is_none() != TextUnwrapper::new().push(&view[*i]).is_none()) {
+        return Some(format!("view() is not the tail of lines(): row {} differs", i));
     }
     for (i, l) in lines.iter().enumerate() {
         if l.len() != cols || l.cells().len() != cols {
